@@ -14,6 +14,8 @@ def register(CHECKS, H):
     # (a seeded change in the partial inverse only showed here)
     quick.append({"unit": "c02_opt0", "args": ["--part", "delta", "--maxv", "1", "--maxe", "2", "--maxt", "2"], "shards": 2})
     quick.append({"unit": "c02_opt0", "args": ["--part", "surfaces"], "shards": 2})
+    # forests on 6 vertices, edges entering one at a time: union-find merges of components of rank >= 2 (seed C02_4)
+    quick.append({"unit": "c02_opt0", "args": ["--part", "forest", "--nverts", "6", "--maxe", "5"], "shards": 8})
     thorough = []
     for u in ("c02_opt0", "c02_opt3"):
         thorough.append({"unit": u, "args": ["--part", "simplicial", "--nverts", "4", "--F", "0,1,2"], "shards": 8,
@@ -21,6 +23,8 @@ def register(CHECKS, H):
     thorough.append({"unit": "c02_opt0", "args": ["--part", "hasse", "--nverts", "4", "--F", "0,1"], "shards": 2})
     thorough.append({"unit": "c02_opt0", "args": ["--part", "delta", "--maxt", "2"], "shards": 16, "timeout": 3000})
     thorough.append({"unit": "c02_opt0", "args": ["--part", "surfaces"], "shards": 8, "timeout": 3000})
+    for u in ("c02_opt0", "c02_opt3"):
+        thorough.append({"unit": u, "args": ["--part", "forest", "--nverts", "6", "--maxe", "5"], "shards": 8, "timeout": 3000})
     CHECKS["C02"] = {
         "units": units,
         "level": "model_checking",
@@ -28,7 +32,7 @@ def register(CHECKS, H):
         "technique": "exhaustive enumeration of all small filtered complexes x fields x options on the real Persistent_cohomology, compared with an independent column reduction over Z_p",
         "level_text": ("every monotone filtered simplicial complex on <= 4 vertices (quick: 4 values on 3 vertices, 2 on 4; thorough: 3 values "
                        "on 4 vertices), every small Delta-complex-like Hasse complex (<= 2 vertices, <= 3 edges incl. loops, <= 2 "
-                       "triangles; contains Z/2 and Z/3 torsion) in every filtration order, and RP^2 / the 7-vertex torus under "
+                       "triangles; contains Z/2 and Z/3 torsion) in every filtration order, every sequence of <= 5 distinct edges forming a forest on 6 labelled vertices (edges entering one at a time, two vertex birth orders), and RP^2 / the 7-vertex torus under "
                        "every lower-star filtration, for fields Z_p (p in 2,3 quick; 2..11 and 46337 thorough), multi-field ranges, "
                        "min_interval_length in {-1,0,1,2} and both values of persistence_dim_max; all read interfaces compared"),
         "level_note": "trusted: ref::persistence (60-line dense column reduction), GMP; small scope only - large complexes are not covered",
@@ -36,8 +40,8 @@ def register(CHECKS, H):
                  "persistence_dim_max) combination (ev.transitions counts engine runs) and get_persistent_pairs, betti numbers, "
                  "persistent betti numbers, intervals_in_dimension and output_diagram are compared with the oracle on the order "
                  "exposed by filtration_simplex_range; non-trivial = complex of dimension >= 1 (resp. with a triangle)"),
-        "bounds": {"quick": "3 vertices x values {0..3}; 4 vertices x values {0,1}; delta complexes with <= 1 triangle, and with 1 vertex, <= 2 loops, <= 2 triangles; RP^2/torus with vertex values in {0,1} and all 720 orders of RP^2",
-                   "thorough": "4 vertices x values {0,1,2} (153 367 complexes, 2 option sets); delta complexes with <= 2 triangles; surfaces with values {0,1,2} and all vertex orders"},
+        "bounds": {"quick": "3 vertices x values {0..3}; 4 vertices x values {0,1}; delta complexes with <= 1 triangle, and with 1 vertex, <= 2 loops, <= 2 triangles; RP^2/torus with vertex values in {0,1} and all 720 orders of RP^2; forests: 6 vertices, <= 5 edges, every edge order",
+                   "thorough": "4 vertices x values {0,1,2} (153 367 complexes, 2 option sets); delta complexes with <= 2 triangles; surfaces with values {0,1,2} and all vertex orders; forests as in quick, both option sets"},
         "assumptions": ["filtration values are small integers", "Delta-complex-like Hasse complexes (loops, repeated faces) are accepted input: the engine only uses boundary_simplex_range"],
         "runs": {"quick": quick, "thorough": thorough},
     }
